@@ -137,16 +137,31 @@ def c18_one(data):
         except OSError:
             pass
         raise Violation("named-module-imported")
-    if loaded and (b"python/" in data) and (b"!!python/" in data or b"tag:yaml.org,2002:python/" in data):
-        # a python/* tag can hide in a quoted string or comment; only a *composed* tag counts
+    if loaded and b"!" in data:
+        # the document was accepted: every tag in it (explicit or resolved) must be one the loader can construct - core YAML
+        # types and registered plugins; a python/* or unregistered tag can hide in a quoted string or comment, so only
+        # *composed* tags count
         import yaml
+        from cobald.daemon.core.config import COBalDLoader
 
         try:
-            tags = [ev.tag for ev in yaml.parse(data.decode("utf-8", "replace")) if getattr(ev, "tag", None)]
+            root = yaml.compose(data.decode("utf-8", "replace"), Loader=COBalDLoader)
         except Exception:
-            tags = []
-        if any(t.startswith("tag:yaml.org,2002:python/") for t in tags):
-            raise Violation("document-accepted: python/* tag loaded without error")
+            root = None
+        known = set(COBalDLoader.yaml_constructors) | {"tag:yaml.org,2002:merge", "tag:yaml.org,2002:value"}
+        todo, seen = [root] if root is not None else [], set()
+        while todo:
+            node = todo.pop()
+            if id(node) in seen:
+                continue
+            seen.add(id(node))
+            if node.tag not in known:
+                raise Violation("document-accepted: tag %r loaded without error" % (node.tag,))
+            if isinstance(node, yaml.SequenceNode):
+                todo.extend(node.value)
+            elif isinstance(node, yaml.MappingNode):
+                for k, v in node.value:
+                    todo.extend((k, v))
 
 
 C18_DICT = [
@@ -154,7 +169,7 @@ C18_DICT = [
     "!!python/name:verifcanary_live.fire", "!!python/module:verifcanary_late", "!!python/object/apply:verifcanary_late.go",
     "!<tag:yaml.org,2002:python/object/apply:verifcanary_live.fire>", "%TAG !py! tag:yaml.org,2002:python/\n---\n", "!py!object/apply:verifcanary_live.fire",
     "!!python/tuple", "!!python/dict", "pipeline:", "- !VPool", "- !VDeco", "!VLazy", "!VEager", "verifextra:", "logging:", "__type__: verifyaml_c05.RecPool",
-    "{args: [1]}", "[]", "{}", "&a", "*a", "? ", ": ", "\n  ", "\n- ",
+    "{args: [1]}", "[]", "{}", "&a", "*a", "? ", ": ", "\n  ", "\n- ", "<<: ", "<<: [", "--- !", "!NotRegistered", "!!binary", "!!set", "!!omap",
 ]
 C18_CORPUS = [
     "pipeline:\n- !VDeco {a: 1}\n- !VPool\n",
@@ -165,6 +180,9 @@ C18_CORPUS = [
     "pipeline:\n- !VPool\nverifextra: !VEager [1, {a: [2, !VLazy {b: 3}]}]\n",
     "pipeline:\n- !VDeco {a: !VEager [x, {k: !!python/tuple [1, 2]}]}\n- !VPool\n",
     "pipeline:\n- !VPool\nverifextra: !VLazy {? !!python/name:verifcanary_live.fire '' : 1}\n",
+    "pipeline:\n- !VPool\nverifextra:\n  a: 1\n  <<: {b: 2}\n",
+    "pipeline:\n- !VDeco\n  a: 1\n  <<: [{b: 2}, {c: 3}]\n- !VPool\n",
+    "--- !!map\npipeline:\n- !VPool\n",
 ]
 
 
